@@ -90,14 +90,14 @@ Definition overlay_given (p : ovp) : Prop :=
      end.
 
 Lemma overlay_body_ok t b p c r f :
-  Good t -> Good b -> s_box (m_sizing b) = true -> overlay_given p ->
+  Good t -> (exists nb, GoodN nb b) -> s_box (m_sizing b) = true -> overlay_given p ->
   overlay_top_ok (m_sizing t) p = true -> 1 <= c -> 1 <= r ->
   match overlay_body t b p c r f with
   | Ok d => cc d = c /\ cr d = r /\ rect d = true /\ inside d
   | Err e => soft e
   end.
 Proof.
-  intros Gt Gb Hb [Hw [Hl [Hrg [Htp [Hbt Hh]]]]] Hok Hc Hr.
+  intros Gt [nb Gb] Hb [Hw [Hl [Hrg [Htp [Hbt Hh]]]]] Hok Hc Hr.
   unfold overlay_body, overlay_cpf.
   assert (Hnc : ov_wt p <> WClip /\ ov_wt p <> WPack).
   { destruct (ov_wt p); try contradiction; split; discriminate. }
@@ -254,7 +254,7 @@ Proof.
 Qed.
 
 Lemma overlay_good t b p :
-  Good t -> Good b -> s_box (m_sizing b) = true -> overlay_given p ->
+  Good t -> (exists nb, GoodN nb b) -> s_box (m_sizing b) = true -> overlay_given p ->
   overlay_top_ok (m_sizing t) p = true -> Good (overlay_sem t b p).
 Proof.
   intros Gt Gb Hb Hg Hok. rewrite overlay_sem_as_node. apply mk_node_good.
